@@ -17,7 +17,7 @@ pub static SCENARIO: Scenario = Scenario {
     rule: "issuer-history on GenericBuilder / PasetoBuilder <V, Local>, v1..v4, clock frozen so that nothing but entropy can differ between builds: histories of N builds under one key (N = 4096 per protocol/layer in quick, 100000 in thorough; plus many short histories of random length) with identical or varying claims/footer/assertion, fresh or reused builder objects. Arm 1 (simulate): nonce fields and tokens pairwise distinct, no constant byte position, every bit position's one-count within N/2 +- 10*sqrt(N)/2 (false-alarm < 2^-64), every build draws entropy; the identical event list re-executed with the SAME entropy stream reproduces every token byte for byte, and with a DIFFERENT stream changes every nonce. Arm 2 (fault): the entropy hook fails chosen draws - that build returns Err and emits no token, later builds succeed and stay fresh. Arm 3 (observe): real SystemRandom passes through the hook unmodified, same distinctness/statistics clauses. Non-trivial = history with >= 2 builds under one key or an entropy fault; distinct = distinct abstract traces.",
     runs: |t| match t {
         Tier::Quick => 16 + 5_000,
-        Tier::Thorough => 16 + 40_000,
+        Tier::Thorough => 16 + 200_000,
     },
     gen,
     judge,
